@@ -301,6 +301,13 @@ def run(ctx):
             res.bad(key + "|order", "Match::exec reorders the arms (%s)" % rv[0].path, b.where(rv[0].line))
     # value candidates of one arm: top to bottom until the first equal one
     b = lib.body("instruction::control_flow::match_arm::MatchArm::covers")
+    if b is not None and not [c for c in b.calls if c.path == EXEC]:
+        # the candidate loop was moved into a helper that belongs to covers alone
+        from ..owners import for_crate
+        for hb in for_crate(lib).cluster(b.id):
+            if [c for c in hb.calls if c.path == EXEC]:
+                b = hb
+                break
     if res.anchor(b is not None, "MatchArm::covers"):
         ex = [c for c in b.calls if c.path == EXEC]
         key = "match:covers"
